@@ -94,6 +94,10 @@ package midi
 //@ ensures [P:C08] validT(t) && checker == SysExMsg ==> result == (t == SysExMsg)
 //@ ensures [P:C08] validT(t) && checker == UnknownMsg ==> result == (t == UnknownMsg)
 //@ ensures [P:C08] validT(t) && checker > UnknownMsg ==> result == (t == checker)
+//@ ensures [P:C08] t >= firstMetaMsg && checker > UnknownMsg ==> result == (t == checker)
+//@ ensures [P:C08] t >= firstMetaMsg && (checker == ChannelMsg || checker == SysCommonMsg || checker == RealTimeMsg || checker == SysExMsg || checker == UnknownMsg) ==> !result
+//@ ensures [P:C08] t >= firstMetaMsg && checker == metaMsg ==> result
+//@ ensures [P:C08] validT(t) && checker == metaMsg ==> !result
 
 //@ func (Message).Type
 //@ ensures [P:C08] result == typeOfB(len(m), m[0])
